@@ -2,6 +2,7 @@ package main
 
 import (
 	"encoding/json"
+	"fmt"
 	"os"
 	"path/filepath"
 	"sort"
@@ -84,6 +85,14 @@ func writeEvidence(cfg *driverCfg, agg *aggregate, ts tierSpec, searchWall, wall
 	cov["samples"] = samples
 	cov["cases"] = agg.cases
 	cov["cases_planned"] = ts.cases
+	switch {
+	case agg.cases >= ts.cases:
+		cov["stopped_by"] = "all planned cases explored"
+	case searchWall >= ts.wall:
+		cov["stopped_by"] = "wall-clock cap of the tier (" + ts.wall.String() + ")"
+	default:
+		cov["stopped_by"] = fmt.Sprintf("%d failing cases awaiting attribution (cap of the tier; on the unchanged tree they are known findings, see known_findings_hit)", len(agg.fails))
+	}
 	cov["cases_nontrivial"] = agg.nontrivial
 	hours := searchWall.Hours()
 	if hours > 0 {
